@@ -5,6 +5,7 @@ import pickle
 from vp_lib.api import H, cover, boot_carbon
 from vp_lib.shadow import shadow
 from vp_lib.stubs import LinearMap, LinearSet
+from vp_lib.carbonenv import make_receiver, drop_receiver
 
 boot_carbon()
 import carbon.util as cutil  # noqa: E402
@@ -154,6 +155,70 @@ def _connect(p):
       pass
 
 
+class _ForbiddenPickle(object):
+  """Stands in for the stock `pickle` module inside carbon.protocols while a frame is handled:
+  exception classes stay available, every entry point that unpickles is a canary."""
+  used = 0
+
+  def __init__(self, real):
+    self._real = real
+
+  def __getattr__(self, name):
+    if name in ('loads', 'load', 'Unpickler', '_Unpickler', '_loads', '_load'):
+      _ForbiddenPickle.used += 1
+      raise AssertionError('stock unpickler used')
+    return getattr(self._real, name)
+
+
+_EXC = [pickle.UnpicklingError('x'), ValueError('x'), IndexError('x'), ImportError('x'), KeyError('x'),
+        EOFError('x'), UnicodeDecodeError('utf-8', b'\xff', 0, 1, 'invalid start byte'),
+        AttributeError('x'), TypeError('x'), OverflowError('x'), MemoryError('x'), RecursionError('x')]
+
+
+def C13_no_fallback(which: int, proto: int) -> bool:
+  """
+  pre: 0 <= which <= len(_EXC)
+  pre: 0 <= proto <= 1
+  post: __return__
+  """
+  # whatever the safe unpickler does with a frame (raise any of the exception classes the C engine
+  # can raise, or return data), the protocol must not fall back to an unrestricted unpickler.
+  from carbon import protocols
+  cls = protocols.MetricPickleReceiver if proto == 0 else protocols.CacheManagementHandler
+  old = settings.get('USE_INSECURE_UNPICKLER', False)
+  settings['USE_INSECURE_UNPICKLER'] = False
+  real_pickle = protocols.pickle
+  p = None
+  try:
+    p = make_receiver(cls)
+
+    class _Stub(object):
+      @staticmethod
+      def loads(data):
+        if which < len(_EXC):
+          raise _EXC[which]
+        return [('a.b', (1.0, 2.0))] if proto == 0 else {'type': 'cache-query', 'metric': 'a.b'}
+    if p.unpickler is not cutil.SafeUnpickler:
+      return False
+    p.unpickler = _Stub
+    p.sendString = lambda data: None
+    _ForbiddenPickle.used = 0
+    protocols.pickle = _ForbiddenPickle(real_pickle)
+    try:
+      p.stringReceived(b'frame')
+    except Exception:
+      pass            # escaping exceptions are C11's subject, not C13's
+    finally:
+      protocols.pickle = real_pickle
+    cover('handled')
+    return _ForbiddenPickle.used == 0
+  finally:
+    protocols.pickle = real_pickle
+    settings['USE_INSECURE_UNPICKLER'] = old
+    if p is not None and proto == 0:
+      drop_receiver(p)
+
+
 def C13_default_setting() -> bool:
   """
   post: __return__
@@ -172,5 +237,10 @@ HARNESSES = [
   H('C13_select', quick=dict(timeout=60), covers=['connected'],
     encodes=['carbon.util:get_unpickler', 'carbon.protocols:MetricPickleReceiver.connectionMade',
              'carbon.protocols:CacheManagementHandler.connectionMade']),
+  H('C13_no_fallback', quick=dict(timeout=120, shards=[('line', 'proto == 0'), ('query', 'proto == 1')]), covers=['handled'],
+    encodes=['carbon.protocols:MetricPickleReceiver.stringReceived', 'carbon.protocols:CacheManagementHandler.stringReceived'],
+    assumptions=['the safe unpickler is replaced by a stub that raises a symbolic choice of exception class or returns data; '
+                 'the name `pickle` inside carbon.protocols is replaced by a proxy whose unpickling entry points are canaries '
+                 '(pickle.dumps for the query response stays real)']),
   H('C13_default_setting', quick=dict(timeout=30), encodes=['carbon.conf:defaults']),
 ]
